@@ -25,6 +25,8 @@ PROPS = {
     "C03": dict(pkg="c03", shards=(4, 16), timeout=(600, 3600), typereg=True),
     "C09": dict(pkg="c09", shards=(2, 8), timeout=(900, 5400)),
     "C10": dict(pkg="c10", shards=(2, 8), timeout=(600, 3600)),
+    "C16": dict(pkg="c16", shards=(4, 16), timeout=(600, 3600)),
+    "C18": dict(pkg="c18", shards=(4, 16), timeout=(600, 3600)),
     "C19": dict(pkg="c19", shards=(2, 8), timeout=(600, 3600)),
     "C20": dict(pkg="c20", shards=(4, 16), timeout=(600, 3600), typereg=True),
     "C08": dict(pkg="c08", shards=(6, 16), timeout=(900, 5400), typereg=True),
